@@ -12,6 +12,7 @@ pkg=$(grep -m1 '^package ' "$sd/demo_test.go" | awk '{print $2}')
 if [ "$pkg" = "carapace" ]; then dir=.; else
   d=$(grep -rl --include=*.go "^package $pkg\$" . | grep -v _test.go | grep -v third_party | head -1 | xargs dirname); [ -n "$d" ] && dir=${d#./}
 fi
+[ -n "$DEMO_DIR" ] && dir=$DEMO_DIR
 run="GOFLAGS= go test -vet=off -count=1 -run TestSeedDemo ./$dir/"
 cp "$sd/demo_test.go" "$dir/zz_seed_demo_test.go"
 base=$(eval $run 2>&1); rc_base=$?
